@@ -21,7 +21,7 @@ use font_types::GlyphId16;
 use read_fonts::collections::IntSet;
 use std::collections::{BTreeMap, BTreeSet};
 use write_fonts::tables::gpos as wg;
-use write_fonts::tables::gpos::builders::{AnchorBuilder, MarkToBaseBuilder, MarkToMarkBuilder, PairPosBuilder, ValueRecordBuilder};
+use write_fonts::tables::gpos::builders::{AnchorBuilder, MarkToBaseBuilder, MarkToLigBuilder, MarkToMarkBuilder, PairPosBuilder, ValueRecordBuilder};
 use write_fonts::tables::layout as wl;
 use write_fonts::tables::layout::builders::Builder;
 use write_fonts::tables::variations::ivs_builder::VariationStoreBuilder;
@@ -1010,6 +1010,197 @@ pub fn run_device(cfg: &Config, s: &mut Session, rng: &mut Rng) {
     }
 }
 
+// ------------------------------------------------------------------------------------------
+// ml.build
+// ------------------------------------------------------------------------------------------
+
+enum MlOp {
+    Mark(u16, u64, usize),
+    Lig(u16, u64, Vec<usize>),
+    Direct(u16, Vec<Vec<(u64, usize)>>),
+}
+
+/// `MarkToLigBuilder`: insert_mark (glyph moved between classes = Err), insert_ligature (repeated
+/// (ligature, class), None entries, differing component counts: shorter = fine, longer with an anchor
+/// beyond the list = index panic), add_ligature_components_directly (replaces), class names no mark
+/// uses (panic in build) — against `MarkToLig.build`; oracle: every (mark, ligature, component) reads
+/// back the anchors of a harness-side replay of the inserts.
+pub fn run_ml_build(cfg: &Config, s: &mut Session, rng: &mut Rng) {
+    let n_cases = if cfg.thorough() { 3000 } else { 400 };
+    for _ in 0..n_cases {
+        let marks: Vec<u16> = (0..rng.range(1, 5)).map(|_| if rng.chance(1, 2) { 300 + rng.below(8) as u16 } else { rng.next() as u16 }).collect();
+        let ligs: Vec<u16> = (0..rng.range(1, 4)).map(|_| if rng.chance(1, 2) { 40 + rng.below(6) as u16 } else { rng.next() as u16 }).collect();
+        let n_names = rng.range(1, 4) as u64;
+        let n = rng.range(1, 20) as usize;
+        let risky = rng.chance(1, 6);
+        let mut b = MarkToLigBuilder::default();
+        let mut ops: Vec<MlOp> = vec![];
+        let mut results: Vec<String> = vec![];
+        let mut trapped = false;
+        // harness-side replay: names known to marks, mark glyph → (name, anchor), ligature → components → name → anchor
+        let mut known: BTreeSet<u64> = BTreeSet::new();
+        let mut mstate: BTreeMap<u16, (u64, usize)> = BTreeMap::new();
+        let mut lstate: BTreeMap<u16, Vec<BTreeMap<u64, usize>>> = BTreeMap::new();
+        for id in 1..=n {
+            let base_id = id * 10;
+            let name = rng.below(n_names);
+            match rng.below(if known.is_empty() { 1 } else { 5 }) {
+                0 | 1 => {
+                    let g = *rng.pick(&marks);
+                    known.insert(name);
+                    mstate.insert(g, (name, base_id));
+                    ops.push(MlOp::Mark(g, name, base_id));
+                    match b.insert_mark(g16(g), &format!("c{name}"), AnchorBuilder::new(base_id as i16, 7)) {
+                        Ok(cid) => results.push(format!("o{cid}")),
+                        Err(e) => results.push(format!("e{}", e.class.trim_start_matches('c'))),
+                    }
+                }
+                2 | 3 => {
+                    let g = *rng.pick(&ligs);
+                    if !known.contains(&name) && !risky {
+                        continue;
+                    }
+                    let have = lstate.get(&g).map(|v| v.len()).unwrap_or(0);
+                    let k = if have == 0 || (risky && rng.chance(1, 3)) { rng.range(0, 4) as usize } else if rng.chance(1, 4) { rng.below(have as u64 + 1) as usize } else { have };
+                    let comps: Vec<usize> = (0..k).map(|i| if rng.chance(1, 3) { 0 } else { base_id + i }).collect();
+                    ops.push(MlOp::Lig(g, name, comps.clone()));
+                    let arg: Vec<Option<AnchorBuilder>> = comps.iter().map(|a| if *a == 0 { None } else { Some(AnchorBuilder::new(*a as i16, 7)) }).collect();
+                    if catch(|| b.insert_ligature(g16(g), &format!("c{name}"), arg)).is_err() {
+                        trapped = true;
+                        break;
+                    }
+                    let cl = lstate.entry(g).or_default();
+                    if cl.is_empty() {
+                        cl.resize(k, BTreeMap::new());
+                    }
+                    for (i, a) in comps.iter().enumerate() {
+                        if *a != 0 {
+                            cl[i].insert(name, *a);
+                        }
+                    }
+                }
+                _ => {
+                    let g = *rng.pick(&ligs);
+                    let k = rng.range(0, 3) as usize;
+                    let mut comps: Vec<Vec<(u64, usize)>> = vec![];
+                    for i in 0..k {
+                        let mut m: BTreeMap<u64, usize> = BTreeMap::new();
+                        for j in 0..rng.below(3) {
+                            let nm = if risky { rng.below(n_names) } else { *rng.pick(&known.iter().copied().collect::<Vec<_>>()) };
+                            m.insert(nm, base_id + 3 * i + j as usize);
+                        }
+                        comps.push(m.into_iter().collect());
+                    }
+                    ops.push(MlOp::Direct(g, comps.clone()));
+                    let arg: Vec<BTreeMap<String, AnchorBuilder>> =
+                        comps.iter().map(|m| m.iter().map(|(nm, a)| (format!("c{nm}"), AnchorBuilder::new(*a as i16, 7))).collect()).collect();
+                    b.add_ligature_components_directly(g16(g), arg);
+                    lstate.insert(g, comps.iter().map(|m| m.iter().copied().collect()).collect());
+                }
+            }
+        }
+        if ops.is_empty() {
+            continue;
+        }
+        let req = format!(
+            "ml.build {}",
+            ops.iter()
+                .map(|o| match o {
+                    MlOp::Mark(g, n, a) => format!("0 {g} {n} {a}"),
+                    MlOp::Lig(g, n, c) => format!("1 {g} {n} {} {}", c.len(), join(c)).replace(" -", ""),
+                    MlOp::Direct(g, c) => {
+                        let parts: Vec<String> = c.iter().map(|m| format!("{} {}", m.len(), m.iter().map(|e| format!("{} {}", e.0, e.1)).collect::<Vec<_>>().join(" ")).trim().to_string()).collect();
+                        format!("2 {g} {}", parts.join(" ")).trim().to_string()
+                    }
+                })
+                .collect::<Vec<_>>()
+                .join(" | ")
+        );
+        let unknown_name = lstate.values().flatten().flat_map(|m| m.keys()).any(|nm| !known.contains(nm));
+        let resp = if trapped {
+            s.count("ml.build:insert_ligature-index-panics");
+            "trap".to_string()
+        } else {
+            let built = catch(|| {
+                let mut vs = VariationStoreBuilder::new(2);
+                b.build(&mut vs)
+            });
+            match built {
+                Err(e) => {
+                    s.count("ml.build:build-panics(unknown class name)");
+                    s.oracle("ml.build:build-panics-only-for-unknown-class", unknown_name, || req.clone(), || e.clone());
+                    "trap".to_string()
+                }
+                Ok(subs) => {
+                    s.count("ml.build:built");
+                    let Some(t) = subs.first() else { continue };
+                    let (Ok(mc), Ok(lc)) = (write_fonts::dump_table(&*t.mark_coverage), write_fonts::dump_table(&*t.ligature_coverage)) else { continue };
+                    let ax = |a: &wg::AnchorTable| -> i32 {
+                        match a {
+                            wg::AnchorTable::Format1(a) => a.x_coordinate as i32,
+                            wg::AnchorTable::Format2(a) => a.x_coordinate as i32,
+                            wg::AnchorTable::Format3(a) => a.x_coordinate as i32,
+                        }
+                    };
+                    let mcov: Vec<u16> = t.mark_coverage.iter().map(|g| g.to_u16()).collect();
+                    let lcov: Vec<u16> = t.ligature_coverage.iter().map(|g| g.to_u16()).collect();
+                    let mr: Vec<(u16, i32)> = t.mark_array.mark_records.iter().map(|r| (r.mark_class, ax(&r.mark_anchor))).collect();
+                    let la: Vec<Vec<Vec<Option<i32>>>> = t
+                        .ligature_array
+                        .ligature_attaches
+                        .iter()
+                        .map(|l| l.component_records.iter().map(|c| c.ligature_anchors.iter().map(|a| a.as_ref().map(|a| ax(a))).collect()).collect())
+                        .collect();
+                    // model-independent read-back
+                    let mut why = None;
+                    let mut mprobe = marks.clone();
+                    mprobe.push(9);
+                    let mut lprobe = ligs.clone();
+                    lprobe.push(9);
+                    'o: for m in &mprobe {
+                        for l in &lprobe {
+                            for c in 0..5usize {
+                                let want = mstate.get(m).and_then(|(nm, am)| lstate.get(l)?.get(c)?.get(nm).map(|al| (*am as i32, *al as i32)));
+                                let got = mcov.iter().position(|g| g == m).zip(lcov.iter().position(|g| g == l)).and_then(|(mi, li)| {
+                                    let r = mr.get(mi)?;
+                                    let a = (*la.get(li)?.get(c)?.get(r.0 as usize)?)?;
+                                    Some((r.1, a))
+                                });
+                                if got != want {
+                                    why = Some(format!("(mark {m}, ligature {l}, component {c}): built subtable answers {got:?}, the inserts say {want:?}"));
+                                    break 'o;
+                                }
+                            }
+                        }
+                    }
+                    s.oracle("ml.build:reads-back-inserted-anchors", why.is_none(), || req.clone(), || why.clone().unwrap_or_default());
+                    let mrecs: Vec<i32> = mr.iter().flat_map(|r| [r.0 as i32, r.1]).collect();
+                    let ligs_s: Vec<String> = la
+                        .iter()
+                        .map(|comps| {
+                            if comps.is_empty() {
+                                "-".to_string()
+                            } else {
+                                comps.iter().map(|r| join(&r.iter().map(|a| a.unwrap_or(0)).collect::<Vec<_>>())).collect::<Vec<_>>().join(" , ")
+                            }
+                        })
+                        .collect();
+                    format!(
+                        "{} ; {} ; {} ; {} ; {} | {}",
+                        render_cov_bytes(&mc),
+                        render_cov_bytes(&lc),
+                        known.len(),
+                        join(&mrecs),
+                        if ligs_s.is_empty() { "-".to_string() } else { ligs_s.join(" / ") },
+                        if results.is_empty() { "-".to_string() } else { results.join(" ") }
+                    )
+                }
+            }
+        };
+        s.case("ml.build", req, resp);
+    }
+}
+
 pub fn run(cfg: &Config, s: &mut Session, rng: &mut Rng) {
     let t = cfg.thorough();
     for _ in 0..(if t { 160 } else { 26 }) {
@@ -1023,4 +1214,5 @@ pub fn run(cfg: &Config, s: &mut Session, rng: &mut Rng) {
         mbp_case(s, &sc);
     }
     run_device(cfg, s, rng);
+    run_ml_build(cfg, s, rng);
 }
